@@ -129,7 +129,24 @@ class Inliner:
         self.log = []          # (caller qn, callee name, line, mode)
 
     # ---- eligibility --------------------------------------------------------------------------------
+    @staticmethod
+    def call_args(call):
+        """arguments bound to the callee's parameters (the closure object of a lambda call is not one of them)"""
+        if call.get("k") == "OpCall":
+            return call.get("a", [])[1:]
+        return call.get("a", [])
+
     def callee(self, call):
+        if call.get("k") == "OpCall":
+            # call of a lambda (closure(args)): the call operator is dumped as its own function
+            if call.get("op") != "()" or not call.get("a"):
+                return None
+            f = self.bydecl.get(call.get("cdecl"))
+            if f is None or f.name != "operator()" or f.cls != "<lambda>" or f.cfg is None or f.body is None or f.body.get("k") != "Block":
+                return None
+            if len(call["a"]) - 1 != len(f.params):
+                return None
+            return f
         if call.get("k") not in ("MCall", "Call"):
             return None
         if call.get("k") == "MCall":
@@ -155,6 +172,70 @@ class Inliner:
         if len(rs) == 1 and st and st[-1] is rs[0]:
             return True, rs[0]
         return False, None
+
+    @staticmethod
+    def early_returns_structured(f):
+        """the body with `if(c) { A; return; } B` rewritten to `if(c) { A } else { B }` (recursively, also for
+        `return <constant>;` whose value the caller ignores), and the ids of the removed return statements — or None if some
+        return sits inside a loop / switch or carries an effect.  Only valid where the caller ignores the result."""
+        rs = _lambda_free_returns(f.body)
+        if any(r.get("e") is not None and _has_effects(r["e"]) for r in rs):
+            return None
+        dropped = set()
+        fresh = [_max_id(f.body) + 1]       # ids of the synthetic else-blocks (expand() reserves room for them)
+
+        def new_block_id():
+            fresh[0] += 1
+            return fresh[0] - 1
+
+        def last_is_return(st):
+            st = st if st.get("k") != "Block" else (st.get("s") or [None])[-1]
+            return st is not None and st.get("k") == "Return"
+
+        def strip_last_return(st):
+            if st.get("k") == "Return":
+                dropped.add(st["i"])
+                return {"k": "Block", "i": st["i"], "l": st.get("l"), "s": []}
+            out = dict(st)
+            out["s"] = list(st["s"][:-1])
+            dropped.add(st["s"][-1]["i"])
+            return out
+
+        def has_return(n):
+            return any(x.get("k") == "Return" for x in walk(n))
+
+        def rec(stmts):
+            out = []
+            for idx, st in enumerate(stmts):
+                k = st.get("k")
+                if k == "Return":
+                    dropped.add(st["i"])
+                    return out          # statements after a return are dead
+                if k == "If" and has_return(st):
+                    th, el = st.get("then"), st.get("else")
+                    rest = stmts[idx + 1:]
+                    if th is not None and last_is_return(th) and not has_return(strip_last_return(th)) and (el is None or not has_return(el)) :
+                        new = dict(st)
+                        new["then"] = strip_last_return(th)
+                        tail = ([el] if el is not None else []) + rest
+                        r2 = rec(tail)
+                        if r2 is None:
+                            return None
+                        new["else"] = {"k": "Block", "i": new_block_id(), "l": st.get("l"), "s": r2, "synthetic_else": True} if r2 else None
+                        out.append(new)
+                        return out
+                    if th is not None and th.get("k") == "Block" and not (el is not None and has_return(el)):
+                        # returns nested deeper in the then-branch
+                        return None
+                    return None
+                if has_return(st):
+                    return None         # return inside a loop / switch / nested block
+                out.append(st)
+            return out
+        body = rec(f.body.get("s", []))
+        if body is None:
+            return None
+        return body, dropped
 
     @staticmethod
     def pure_expr(f):
@@ -229,7 +310,7 @@ class Inliner:
         # is there anything to do?  (cheap pre-scan on the original tree)
         cands = []
         for n in walk(fn.body):
-            if n.get("k") in ("MCall", "Call"):
+            if n.get("k") in ("MCall", "Call", "OpCall"):
                 c = self.callee(n)
                 if c is not None and c.d.get("decl") != me and c.d.get("decl") not in stack and c.facts is fn.facts and (want is None or want(n, c)):
                     cands.append(n.get("i"))
@@ -256,7 +337,7 @@ class Inliner:
                     written.add(strip(x["lhs"])["d"])
                 elif x.get("k") == "Un" and x.get("op") in ("++", "--") and strip(x["e"]).get("k") == "Ref":
                     written.add(strip(x["e"])["d"])
-            for p, a in zip(cal.params, call.get("a", [])):
+            for p, a in zip(cal.params, self.call_args(call)):
                 if not p.get("n"):
                     continue
                 ty = cal.type(p["t"])
@@ -323,11 +404,15 @@ class Inliner:
                     dmap[x["d"]] = next(_fresh_decl)
             decls, subst = bind(call, cal)
             off = st["next_id"]
-            st["next_id"] += _max_id(cal.body) + 2
+            st["next_id"] += _max_id(cal.body) + 2 + 64      # + room for synthetic blocks of the early-return rewrite
             stmts = cal.body.get("s", [])
             drop = set()
             rexpr = None
-            if ret is not None:
+            if not ok and mode == "stmt":
+                # early returns: `if(c) { A; return; } B` is `if(c) { A } else { B }` (the CFG keeps its own edges)
+                stmts, drop = self.early_returns_structured(cal)
+                drop = set(drop)
+            elif ret is not None:
                 stmts = stmts[:-1]
                 drop.add(ret["i"])
                 if ret.get("e") is not None:
@@ -347,12 +432,14 @@ class Inliner:
             if not isinstance(s, dict):
                 return None
             k = s.get("k")
-            c = strip(s) if k in ("MCall", "Call", "Cast") else None
-            if c is not None and c.get("k") in ("MCall", "Call") and c.get("i") in cands:
+            c = strip(s) if k in ("MCall", "Call", "OpCall", "Cast") else None
+            if c is not None and c.get("k") in ("MCall", "Call", "OpCall") and c.get("i") in cands:
                 cal = self.callee(c)
-                if cal is not None and self.tail_return_only(self.inline(cal, want, depth - 1, stack + (me,)))[0]:
-                    blk, _ = expand(c, cal, "stmt")
-                    return [blk]
+                if cal is not None:
+                    cal2 = self.inline(cal, want, depth - 1, stack + (me,))
+                    if self.tail_return_only(cal2)[0] or self.early_returns_structured(cal2) is not None:
+                        blk, _ = expand(c, cal, "stmt")
+                        return [blk]
                 return None
             slot = None
             if k == "Return" and s.get("e") is not None:
@@ -363,7 +450,7 @@ class Inliner:
                 slot = (s["vars"][0], "init")
             if slot is not None:
                 c = strip(slot[0][slot[1]])
-                if c.get("k") in ("MCall", "Call") and c.get("i") in cands:
+                if c.get("k") in ("MCall", "Call", "OpCall") and c.get("i") in cands:
                     cal = self.callee(c)
                     if cal is None:
                         return None
@@ -441,18 +528,18 @@ class Inliner:
                                 subst_exprs(x)
 
         def expr_repl(c):
-            if c.get("k") not in ("MCall", "Call") or c.get("i") not in cands:
+            if c.get("k") not in ("MCall", "Call", "OpCall") or c.get("i") not in cands:
                 return None
             cal = self.callee(c)
             if cal is None:
                 return None
             e = self.pure_expr(cal)
-            if e is None or not all(_pure_arg(a) for a in c.get("a", [])):
+            if e is None or not all(_pure_arg(a) for a in self.call_args(c)):
                 return None
             if any(x.get("k") in ("Assign", "Lambda", "New", "Delete", "Throw") or (x.get("k") == "Un" and x.get("op") in ("++", "--")) for x in walk(e)):
                 return None
             subst = {}
-            for p, a in zip(cal.params, c.get("a", [])):
+            for p, a in zip(cal.params, self.call_args(c)):
                 subst[p["d"]] = ("node", a)
             off = st["next_id"]
             st["next_id"] += _max_id(cal.body) + 2
@@ -1017,3 +1104,146 @@ def without_skip_edges(fn, view, if_ids):
     d2 = dict(fn.d)
     d2["cfg"] = cfg
     return Function(fn.facts, d2)
+
+
+# -------------------------------------------------------------------------------------------------
+# a range-for over a small local table is the sequence of its iterations
+# -------------------------------------------------------------------------------------------------
+
+def unroll_const_range_for(fn, max_elems=4):
+    """-> Function in which `for(auto& x : table)` over a never-written local array / initializer list with k <= max_elems
+    elements `T table[k] = {e0, e1, ...}` is replaced by k copies of the loop body, copy j with `x` bound to ej (statement
+    tree and CFG).  A two-entry table walked by a loop and the same two statements written out are the same program;
+    rules that enumerate paths or resolve what `x` denotes need the latter form."""
+    if fn.body is None or fn.cfg is None:
+        return fn
+    from mgfacts import FnView
+    view = FnView(fn)
+    cands = []
+    for n in walk(fn.body):
+        if n.get("k") != "ForRange" or not isinstance(n.get("var"), dict):
+            continue
+        r = view.value(n.get("range") or {})
+        if r.get("k") != "InitList" or not (1 <= len(r.get("a", [])) <= max_elems):
+            continue
+        if view.writes.get(n["var"].get("d")):
+            continue
+        if any(x.get("k") == "ForRange" for x in walk(n.get("body") or {})):
+            continue
+        cands.append((n, r["a"]))
+    if not cands:
+        return fn
+    body = copy.deepcopy(fn.body)
+    cfg = copy.deepcopy(fn.d["cfg"])
+    blocks = {b["id"]: b for b in cfg["blocks"]}
+    byid = {x["i"]: x for x in walk(body) if "i" in x}
+    parent = {}
+    for x in walk(body):
+        for c in kids(x):
+            if "i" in c:
+                parent[c["i"]] = x
+    nid = [max(_max_id(body), max([e for b in cfg["blocks"] for e in b["el"]] + [0])) + 1]
+    nblk = [max(blocks) + 1]
+
+    def new_id():
+        nid[0] += 1
+        return nid[0] - 1
+
+    def fresh(node):
+        if isinstance(node, list):
+            return [fresh(x) for x in node]
+        if not isinstance(node, dict):
+            return node
+        return {k: (new_id() if k == "i" and isinstance(v, int) else fresh(v)) for k, v in node.items()}
+    done = 0
+    for n0, elems in cands:
+        loop = byid.get(n0["i"])
+        H = next((b for b in blocks.values() if b.get("term") == "CXXForRangeStmt" and b.get("term_id") == n0["i"]), None)
+        if loop is None or H is None or len(H.get("succ", [])) != 2 or H["succ"][0] is None or H["succ"][1] is None:
+            continue
+        B0, X = H["succ"]
+        # body blocks: reachable from B0 without passing H
+        bset, todo = set(), [B0]
+        while todo:
+            b = todo.pop()
+            if b in bset or b == H["id"] or b == cfg["exit"] or b not in blocks:
+                continue
+            bset.add(b)
+            todo += [s for s in blocks[b].get("succ", []) if s is not None]
+        if X in bset:
+            continue
+        lbody = loop.get("body") or {"k": "Block", "s": []}
+        var = loop["var"]
+        local_decls = {x["d"] for x in walk(lbody) if x.get("k") == "Var" and "d" in x}
+        copies_tree = []
+        entries = []
+        maxi = _max_id(lbody)
+        mini_blocks = {b: blocks[b] for b in bset}
+        for j, el in enumerate(elems):
+            off = nid[0]
+            nid[0] += maxi + 2
+            dmap = {d: next(_fresh_decl) for d in local_decls}
+            vd = next(_fresh_decl)
+            dmap[var["d"]] = vd
+
+            def clone(x):
+                if isinstance(x, list):
+                    return [clone(y) for y in x]
+                if not isinstance(x, dict):
+                    return x
+                out = {}
+                for k2, v2 in x.items():
+                    if k2 == "i" and isinstance(v2, int):
+                        out[k2] = v2 + off
+                    elif k2 == "d" and x.get("k") in ("Ref", "Var") and v2 in dmap:
+                        out[k2] = dmap[v2]
+                    else:
+                        out[k2] = clone(v2) if isinstance(v2, (dict, list)) else v2
+                return out
+            decl = {"k": "Decl", "i": new_id(), "l": loop.get("l"), "vars": [
+                {"k": "Var", "n": "%s_%d" % (var.get("n"), j), "d": vd, "t": var.get("t"), "l": loop.get("l"), "ref": True, "const": True, "init": fresh(el), "unrolled": True}]}
+            cb = clone(lbody)
+            copies_tree.append({"k": "Block", "i": new_id(), "l": loop.get("l"), "s": [decl] + (cb.get("s", []) if cb.get("k") == "Block" else [cb]), "iteration": j})
+            base = nblk[0]
+            nblk[0] += max(bset) + 2
+            entries.append((base, off, decl["i"]))
+        # CFG copies
+        for j, (base, off, decl_id) in enumerate(entries):
+            nxt = (entries[j + 1][0] + B0) if j + 1 < len(entries) else X
+            for b in bset:
+                ob = blocks[b]
+                nb = {"id": base + b, "el": ([decl_id] if b == B0 else []) + [e + off if e in byid and _in(byid[e], lbody) else e for e in ob["el"]],
+                      "succ": [None if s is None else (nxt if s == H["id"] else (base + s if s in bset else s)) for s in ob.get("succ", [])]}
+                for key in ("term", "noreturn"):
+                    if key in ob:
+                        nb[key] = ob[key]
+                for key in ("term_id", "cond", "label"):
+                    if isinstance(ob.get(key), int):
+                        nb[key] = ob[key] + off if ob[key] in byid and _in(byid[ob[key]], lbody) else ob[key]
+                blocks[nb["id"]] = nb
+        for b in bset:
+            del blocks[b]
+        H.pop("term", None)
+        H.pop("term_id", None)
+        H.pop("cond", None)
+        H["succ"] = [entries[0][0] + B0]
+        # tree
+        newnode = {"k": "Block", "i": loop["i"], "l": loop.get("l"), "s": copies_tree, "unrolled": len(elems)}
+        loop.clear()
+        loop.update(newnode)
+        done += 1
+    if not done:
+        return fn
+    d2 = dict(fn.d)
+    d2["body"] = body
+    cfg["blocks"] = [blocks[b] for b in sorted(blocks)]
+    d2["cfg"] = cfg
+    return Function(fn.facts, d2)
+
+
+def _in(node, root, _cache={}):
+    key = id(root)
+    if key not in _cache or _cache[key][0] is not root:
+        _cache.clear()
+        _cache[key] = (root, {id(x) for x in walk(root)})
+    return id(node) in _cache[key][1]
